@@ -1801,3 +1801,28 @@ def member_probe_source(atoms, header_name):
         L.append(a.probe_line())
     L.append("  return 0;\n}")
     return "\n".join(L) + "\n"
+
+
+# ------------------------------------- C04: several command-line files including each other
+
+class FileAtom:
+    """The content of one command-line header: a class with a published, a merely public
+    and a private method, and a published global function."""
+
+    def __init__(self, prefix):
+        self.p = prefix
+        self.cname = prefix + "C"
+        self.key = "file"
+
+    def render(self):
+        p = self.p
+        return ("class %sC {\n__published:\n  int %s_m(int a);\npublic:\n  int %s_u(int a);\n"
+                "private:\n  int %s_i(int a);\n};\n__begin_publish\nint %s_f(int a);\n__end_publish\n"
+                % (p, p, p, p, p))
+
+    def model(self, promiscuous, cmd, local):
+        p = self.p
+        pa = lambda c: "present" if c else "absent"
+        self.why = {}
+        return {"@class": pa(local), "%s_m" % p: pa(local), "%s_f" % p: pa(local),
+                "%s_u" % p: pa(local and promiscuous), "%s_i" % p: "absent"}
